@@ -812,7 +812,10 @@ variable {α : Type}
 backslashes, newlines, control characters, non-ASCII, astral) — the text praatio writes (`json.dumps` of the dictionary, as
 modelled by `render`) is a JSON document, and reading it against the README schema returns exactly the in-memory content:
 class names, tier names, spans, times (as the written numerals) and labels.  Hypothesis: the number renderer writes JSON
-numerals (`float.__repr__` of a finite float, `int.__repr__`). -/
+numerals (`float.__repr__` of a finite float, `int.__repr__`).  NO hypothesis on names and labels.  `hnum` is about the
+renderer and holds for every FINITE float, negative ones and both exponent forms (`1e-05`, `1e+16`) included (`pyNum_ok`);
+C01 / C02 quantify over finite times — for `inf` / `nan` `json.dumps` writes `Infinity` / `NaN`, which is not JSON (the
+`#guard` at the end of the file). -/
 theorem decode_json_full (num : α → String) (hnum : ∀ x, JsonNum (num x)) (g : Tg α) (lo hi : α) :
     (Json.parse (tgToJsonFull num g lo hi).toList).bind tgOfJson = some (rawOf num g lo hi) := by
   unfold tgToJsonFull
@@ -821,7 +824,9 @@ theorem decode_json_full (num : α → String) (hnum : ∀ x, JsonNum (num x)) (
 
 /-- **C02, format "json", whole files.**  Same, for the simplified schema: what is recovered is the in-memory content with the
 textgrid's span standing in for every tier's own (`oneSpan`: the format keeps one span), tier order included.  Tier names are
-distinct, as the `Textgrid` class guarantees (the format is a dictionary keyed by tier name). -/
+distinct, as the `Textgrid` class guarantees (the format is a dictionary keyed by tier name): `hn` is enforced by the code —
+`Textgrid.addTier` rejects a second tier of the same name, `C12.addTier_dup` — and what a repeated name would do to the
+dictionary is the `#guard` at the end of the file. -/
 theorem decode_json_simple (num : α → String) (hnum : ∀ x, JsonNum (num x)) (g : Tg α) (lo hi : α) (hn : g.names.Nodup) :
     (Json.parse (tgToJsonSimple num g lo hi).toList).bind tgOfJson = some (oneSpan (rawOf num g lo hi)) := by
   unfold tgToJsonSimple
